@@ -287,6 +287,14 @@ func runC05(rec5, rec13 *vk.Rec, caseID, seedIdx int, regime string) {
 				}
 			}
 			isolated[i] = true
+		case x < 98 && regime != "S0" && regime != "S1": // Swarm.update(): every few seconds each broker marks the peers it can reach as active
+			i := r.Intn(nb)
+			for j := 0; j < nb; j++ {
+				if j != i && net.Reachable(i, j) {
+					net.Nodes[i].B.Svc.VerifSwarm().VerifTouch(net.Nodes[j].Name)
+				}
+			}
+			ops = append(ops, fmt.Sprintf("update n%d (touch reachable peers)", i))
 		default:
 			transport(r.Range(1, 6))
 		}
